@@ -161,17 +161,18 @@ def make(ck, rnd, n):
     from kyupy.wave_sim import WaveSim, WaveSimCuda
     recs, metas = [], []
     for t in range(n):
-        c = gen.gen_circuit(rnd, style=rnd.choice(['v', 'v', 'b']), max_gates=ck.pick(8, 14), max_ff=2)
+        parity = rnd.random() < 0.25
+        c = gen.parity_circuit(rnd, nin=rnd.randint(5, 7)) if parity else gen.gen_circuit(rnd, style=rnd.choice(['v', 'v', 'b']), max_gates=ck.pick(8, 14), max_ff=2)
         lanes = rnd.choice([2, 3, 4, 5])
         nds = rnd.choice([1, 2, 3])
-        d = gen.rand_delays(rnd, c, datasets=nds, vals=(0, 1, 2, 3, 5), zero_fork_inputs=True)
+        d = gen.rand_delays(rnd, c, datasets=nds, vals=(0, 1) if parity else (0, 1, 2, 3, 5), zero_fork_inputs=True)
         ds = [rnd.randrange(nds) for _ in range(lanes)]
         if rnd.random() < 0.4:
             ds = [ds[0]] * lanes
         perm = list(range(lanes))
         rnd.shuffle(perm)
-        inw = [[wrec.stim_image(rnd.randint(0, 1), rnd.randint(0, 12), rnd.randint(0, 1)) for _ in range(lanes)] for _ in c.s_nodes]
-        mt = dict(kind='wave', circuit=gen.circuit_state(c), lanes=lanes, delays=d.tolist(), ds=ds, caps=rnd.choice([4, 8, 16]), inw=inw,
+        inw = [[wrec.stim_image(rnd.randint(0, 1), rnd.randint(0, 40 if parity else 12), rnd.randint(0, 1)) for _ in range(lanes)] for _ in c.s_nodes]
+        mt = dict(kind='wave', circuit=gen.circuit_state(c), lanes=lanes, delays=d.tolist(), ds=ds, caps=4 if parity else rnd.choice([4, 8, 16]), inw=inw,
                   T=rnd.choice([None, rnd.randint(0, 20), rnd.randint(0, 20)]), extra=rnd.choice([1, 3, 30]), perm=perm, k=rnd.randint(1, lanes - 1),
                   cls2=rnd.choice(['WaveSim', 'WaveSimCuda']))
         recs.append(build(mt))
